@@ -18,10 +18,12 @@ pub struct GenCfg {
     /// allow the occasional very wide trace (64 / 255 columns)
     pub wide: bool,
     pub max_assertions: usize,
+    /// force one sequence assertion of >= 64 values whose first step is spread over the whole stride
+    pub long_sequence: bool,
 }
 impl GenCfg {
     pub fn small() -> Self {
-        GenCfg { min_log_n: 3, max_log_n: 8, max_width: 8, allow_aux: true, max_degree: 5, wide: false, max_assertions: 8 }
+        GenCfg { min_log_n: 3, max_log_n: 8, max_width: 8, allow_aux: true, max_degree: 5, wide: false, max_assertions: 8, long_sequence: false }
     }
 }
 
@@ -195,6 +197,30 @@ pub fn gen_instance<S: FSpec>(s: &mut Src, cfg: &GenCfg, rec: &mut Rec) -> Insta
     let mut used: HashSet<(usize, usize)> = HashSet::new();
     let nassert = s.range(1, cfg.max_assertions as u64) as usize;
     let to_int = |b: &S::B| S::to_int(b);
+    if cfg.long_sequence && n >= 128 {
+        // long sequences take the prover's large-polynomial path; the offset of the first step
+        // relative to the number of values is what matters there, so spread it over the stride
+        let max_len_log = (log_n - 1).min(9);
+        let len = if s.bool() { 64 } else { 1usize << s.range(6, max_len_log.max(6) as u64) };
+        let stride = n / len;
+        let first = match s.below(4) {
+            0 => 0,
+            1 => stride - 1,
+            2 => stride / 2,
+            _ => s.below(stride as u64) as usize,
+        };
+        let col = s.below(main_width as u64) as usize;
+        let values: Vec<u128> = (0..len).map(|i| to_int(&main[col][first + stride * i])).collect();
+        let a = AssertSpec { column: col, first, stride, values, kind: 2 };
+        for st in a.steps(n) {
+            used.insert((col, st));
+        }
+        rec.class("assert_sequence");
+        rec.class("sequence_ge_64");
+        rec.class_if(first != 0, "sequence_first_nonzero");
+        rec.class_if(first * spec.min_blowup() >= len, "sequence_offset_ge_values");
+        spec.assertions.push(a);
+    }
     let mut tries = 0;
     while spec.assertions.len() < nassert && tries < 4 * nassert + 8 {
         tries += 1;
